@@ -32,6 +32,9 @@ Record frow := { fname : string; fargs : list akind; fkw : option akind; flazy :
 Definition in_list (s : string) (l : list string) : bool := existsb (String.eqb s) l.
 
 (* numeric-only, one array operand *)
+(* (a boolean operand of a numeric function is outside its domain, alone or next to numbers: the property counts
+   "numeric functions on booleans" and forbids results "computed through an implicit cross-kind cast"; the calls where
+   the pinned library nevertheless returns are a recorded finding class, like the element-wise one) *)
 Definition numeric1 := ["sum"; "prod"; "mean"; "var"; "std"; "cumulative_sum"; "min"; "max"; "sort"; "argsort"].
 (* the library defines these on booleans as well *)
 Definition ordered1 := ["argmax"; "argmin"].
@@ -39,6 +42,8 @@ Definition numeric2 := ["searchsorted"; "matmul"].
 Definition joins := ["concat"; "stack"; "fill_null"].
 
 Definition mixes_str (l : list akind) : bool := existsb (is_k KStr) l && existsb (fun a => negb (is_k KStr a)) l.
+(* a boolean next to a number: the result could only come from an implicit bool -> number cast *)
+Definition mixes_bool_num (l : list akind) : bool := existsb (is_k KBool) l && existsb (is_k KNum) l.
 Definition kw_str (kw : option akind) : bool := match kw with Some a => is_k KStr a | None => false end.
 
 Definition outside (r : frow) : bool :=
@@ -46,18 +51,18 @@ Definition outside (r : frow) : bool :=
   if in_list (fname r) numeric1 then
     existsb (is_k KStr) a || existsb (is_k KStruct) a || forallb (is_k KBool) a || kw_str (fkw r)
   else if in_list (fname r) ordered1 then existsb (is_k KStr) a || existsb (is_k KStruct) a
-  else if in_list (fname r) numeric2 then existsb (is_k KStr) a || existsb (is_k KStruct) a || forallb (is_k KBool) a
+  else if in_list (fname r) numeric2 then existsb (is_k KStr) a || existsb (is_k KStruct) a || existsb (is_k KBool) a
   else if String.eqb (fname r) "clip" then
     match a with
-    | x :: bounds => negb (is_k KNum x) || existsb (is_k KStr) bounds || existsb (is_k KStruct) bounds
+    | x :: bounds => negb (is_k KNum x) || existsb (is_k KStr) bounds || existsb (is_k KStruct) bounds || existsb (is_k KBool) bounds
     | [] => false
     end
   else if String.eqb (fname r) "where" then
     match a with
-    | c :: xy => negb (is_k KBool c) || mixes_str xy
+    | c :: xy => negb (is_k KBool c) || mixes_str xy || mixes_bool_num xy
     | [] => false
     end
-  else if in_list (fname r) joins then mixes_str a
+  else if in_list (fname r) joins then mixes_str a || mixes_bool_num a
   else false.
 
 Definition is_type_error (o : outcome) : bool := match o with OTypeError => true | _ => false end.
@@ -79,7 +84,7 @@ Example outside_ex1 : outside {| fname := "var"; fargs := [ABool]; fkw := Some A
 Proof. reflexivity. Qed.
 Example outside_ex2 : outside {| fname := "where"; fargs := [ABool; AUtf8; AInt]; fkw := None; flazy := true; fout := OOk |} = true.
 Proof. reflexivity. Qed.
-Example outside_ex3 : outside {| fname := "matmul"; fargs := [ABool; AInt]; fkw := None; flazy := true; fout := OOk |} = false.
+Example outside_ex3 : outside {| fname := "matmul"; fargs := [ABool; AInt]; fkw := None; flazy := true; fout := OOk |} = true.
 Proof. reflexivity. Qed.
 Example outside_ex4 : outside {| fname := "argmax"; fargs := [ABool]; fkw := None; flazy := true; fout := OOk |} = false.
 Proof. reflexivity. Qed.
